@@ -12,7 +12,7 @@ inductive Waker where
   | queue (q : Nat)                 -- WakeQueue(queue, core)
   | thread (q : Nat) (t : Nat)      -- WakeThread(queue, thread)
   | latch (l : Nat)                 -- DrainWaker
-  | task (a : Nat)                  -- the block_on context of activity `a` (harness task)
+  | task (t : Nat)                  -- the block_on context of thread `t` (one waker per thread, shared by successive awaits)
   | double (d : Nat)                -- DoubleWaker
   deriving DecidableEq, Repr, Hashable, Inhabited
 
@@ -156,6 +156,7 @@ inductive Pc where
   | jobBodyDone (j : Nat) (kr : Pc)        -- closure returned: job-specific epilogue
   | jobEnd (j : Nat) (kr : Pc)             -- H `end`
   | jobSignal (j : Nat) (kr : Pc)          -- signal(): result slot critical section
+  | jobSigDrop (j : Nat) (kr : Pc)         -- the signaller is dropped at the end of signal(): it locks the slot once more
   | jobDrop (j : Nat) (kr : Pc)            -- the job box is dropped (erased bg job: set ready, notify_all)
   | jobDropNotify (j : Nat) (kr : Pc)
   -- pool thread
@@ -220,6 +221,7 @@ structure State where
   ready : List Nat                          -- sync callers whose `ready` flag is set (their erased job was dropped)
   opFut : List (Nat × Nat)                  -- operation id -> the SchedulerFuture it returned
   parkToken : List Nat                      -- threads with an unpark token
+  taskWoken : List Nat                      -- threads whose block_on waker has fired since they last went to sleep
   acts : List Act
   nextOp : Nat
   -- ghost (write-only) fields used by the invariants
@@ -243,7 +245,7 @@ inductive Obs where
   | spawn (p : Nat) | join (p : Nat) | joined (p : Nat) | exit
   | notify1 (a : Nat)            -- notify_one on the condvar of sync caller `a`
   | notifyAll (a : Nat)
-  | taskWake (a : Nat)           -- the block_on waker of task `a` is fired
+  | taskWake (t : Nat)           -- the block_on waker of thread `t` is fired
   | gateSend (g : Nat)           -- harness: one oneshot send of gate g
   | wakeupDropped                -- a sync caller drops its condition variable
   | beg (op : Nat) | end_ (op : Nat)
@@ -274,7 +276,7 @@ def initState (nq : Nat) (ngates : Nat) (max : Nat) : State :=
   { qs := List.replicate nq { state := .idle, jobs := [], waiters := [] }
     jobs := [], futs := [], gates := List.replicate ngates { isOpen := false, waiting := [] }
     latches := [], doubles := [], pthreads := [], threadsVec := [], threadsLock := none
-    schedule := [], schedLock := none, maxThreads := max, readyLock := [], ready := [], opFut := [], parkToken := []
+    schedule := [], schedLock := none, maxThreads := max, readyLock := [], ready := [], opFut := [], parkToken := [], taskWoken := []
     acts := [], nextOp := 0, holder := List.replicate nq none }
 
 end Desync
